@@ -989,6 +989,13 @@ func (e *Env) call(x *ECall) CV {
 		}
 		t := e.resolveType(ts.V)
 		return cvOf(Val{sh: shapeOf(types.NewPointer(t)), ts: []T{app("div", sub(a.v.ts[0], embBase), "64")}})
+	case "keyid":
+		// keyid(v): the identity under which v is a map key (content id for strings)
+		a := arg(0)
+		if a.k == cvStr {
+			return CV{k: cvInt, t: fx.keyTerm(mkStr(shapeOf(types.Typ[types.String]), a.arr, a.off, a.n))}
+		}
+		return CV{k: cvInt, t: a.asInt()}
 	case "strid":
 		// strid(s): the map key identity of a string / byte slice content
 		a := arg(0)
@@ -1157,6 +1164,9 @@ func (e *Env) callSpecFn(sf *SpecFn, args []CV) CV {
 		pt := e.specTypeOf(p.Type)
 		if pt.k == cvStr && args[i].k == cvVal && args[i].v.sh.kind == KSlice {
 			a := args[i].v
+			if a.sh.elem.ncomp() != 1 || a.sh.elem.kind == KBool {
+				unsupp("contract: %s cannot take a slice of %s as a sequence of scalar values", sf.Name, a.sh.elem.key)
+			}
 			args[i] = CV{k: cvStr, arr: fx.sliceBacking(e.st, a.sh.elem, a.slRef(), 0), off: a.slOff(), n: a.slLen()}
 		}
 		flat = append(flat, flattenCV(args[i], pt)...)
